@@ -1,0 +1,407 @@
+//go:build verif
+
+// Contracts for package proto, checked by /verif/engine (govc). Comment-only file.
+//
+// Wire model (see /verif/contracts/lib/wire.spec): for a writer u, wn[u] is the number of bytes
+// written so far and wdata[u] the bytes; for a reader c, fcontent[c] is the byte stream and fpos[c]
+// the number of bytes consumed. Layouts are stated as big-endian words at byte offsets, transcribed
+// from the protocol (netiso.h of the original ps3netsrv).
+
+package proto
+
+//@ spec u64(x int) int = x >= 0 ? x : x + 18446744073709551616
+//@ ghost fiatime map[int]int
+//@ ghost fictime map[int]int
+
+//@ pred outKept(u ref) := wn[u] >= old(wn[u]) && (forall k {wdata[u][k]} :: k < old(wn[u]) ==> wdata[u][k] == old(wdata[u][k]))
+//@ pred wroteI32(u ref, v int) := wn[u] == old(wn[u]) + 4 && sbe32(wdata[u], old(wn[u])) == v
+//@ pred wroteI64(u ref, v int) := wn[u] == old(wn[u]) + 8 && sbe64(wdata[u], old(wn[u])) == v
+
+//@ func Writer.sendResult results(err)
+//@   tags C03,C02,C04,C06
+//@   any k int
+//@   requires w != nil && w.Writer != nil && data != nil
+//@   modifies wn[w.Writer], wdata[w.Writer], iofaults
+//@   let u = w.Writer
+//@   let L = typeis(data, "string") ? len(unboxstr(data)) : enclen(data)
+//@   ensures iofaults >= old(iofaults) && wn[u] >= old(wn[u])
+//@   ensures k < old(wn[u]) ==> wdata[u][k] == old(wdata[u][k]) @prefix-kept
+//@   ensures typeis(data, "string") || encok(data) ==> wn[u] <= old(wn[u]) + L @at-most
+//@   ensures typeis(data, "string") && old(wn[u]) <= k && k < wn[u] ==> wdata[u][k] == unboxstr(data)[k - old(wn[u])] @string-bytes
+//@   ensures !typeis(data, "string") && encok(data) && old(wn[u]) <= k && k < wn[u] ==> wdata[u][k] == encbytes(data)[k - old(wn[u])] @encoded-bytes
+//@   ensures typeis(data, "string") || encok(data) ==> (err == nil <==> wn[u] == old(wn[u]) + L) @complete-or-error
+//@   ensures !typeis(data, "string") && !encok(data) ==> err != nil && wn[u] == old(wn[u]) @unencodable
+//@   ensures iofaults == old(iofaults) && (typeis(data, "string") || encok(data)) ==> err == nil @no-spurious-error
+
+// ---- 4-byte result codes -------------------------------------------------------------------------
+
+//@ func Writer.SendOpenDirResult results(err)
+//@   tags C03,C06,C04
+//@   requires w != nil && w.Writer != nil
+//@   modifies wn[w.Writer], wdata[w.Writer], iofaults
+//@   ensures outKept(w.Writer) && iofaults >= old(iofaults) && (iofaults == old(iofaults) ==> err == nil)
+//@   ensures[C03] err == nil ==> wroteI32(w.Writer, success ? 0 : -1) @layout
+//@   ensures[C03] wn[w.Writer] <= old(wn[w.Writer]) + 4 @length
+
+//@ func Writer.SendCreateFileResult results(err)
+//@   tags C03,C05,C04
+//@   requires w != nil && w.Writer != nil
+//@   modifies wn[w.Writer], wdata[w.Writer], iofaults
+//@   ensures outKept(w.Writer) && iofaults >= old(iofaults) && (iofaults == old(iofaults) ==> err == nil)
+//@   ensures[C03] err == nil ==> wroteI32(w.Writer, 0) @layout
+//@   ensures[C03] wn[w.Writer] <= old(wn[w.Writer]) + 4 @length
+//@ func Writer.SendCreateFileError results(err)
+//@   tags C03,C05,C04
+//@   requires w != nil && w.Writer != nil
+//@   modifies wn[w.Writer], wdata[w.Writer], iofaults
+//@   ensures outKept(w.Writer) && iofaults >= old(iofaults) && (iofaults == old(iofaults) ==> err == nil)
+//@   ensures[C03] err == nil ==> wroteI32(w.Writer, -1) @layout
+//@   ensures[C03] wn[w.Writer] <= old(wn[w.Writer]) + 4 @length
+//@ func Writer.SendWriteFileResult results(err)
+//@   tags C03,C05,C04
+//@   requires w != nil && w.Writer != nil
+//@   modifies wn[w.Writer], wdata[w.Writer], iofaults
+//@   ensures outKept(w.Writer) && iofaults >= old(iofaults) && (iofaults == old(iofaults) ==> err == nil)
+//@   ensures[C03] err == nil ==> wroteI32(w.Writer, written) @layout
+//@   ensures[C03] wn[w.Writer] <= old(wn[w.Writer]) + 4 @length
+//@ func Writer.SendWriteFileError results(err)
+//@   tags C03,C05,C04
+//@   requires w != nil && w.Writer != nil
+//@   modifies wn[w.Writer], wdata[w.Writer], iofaults
+//@   ensures outKept(w.Writer) && iofaults >= old(iofaults) && (iofaults == old(iofaults) ==> err == nil)
+//@   ensures[C03] err == nil ==> wroteI32(w.Writer, -1) @layout
+//@   ensures[C03] wn[w.Writer] <= old(wn[w.Writer]) + 4 @length
+//@ func Writer.SendDeleteFileResult results(err)
+//@   tags C03,C05,C04
+//@   requires w != nil && w.Writer != nil
+//@   modifies wn[w.Writer], wdata[w.Writer], iofaults
+//@   ensures outKept(w.Writer) && iofaults >= old(iofaults) && (iofaults == old(iofaults) ==> err == nil)
+//@   ensures[C03] err == nil ==> wroteI32(w.Writer, 0) @layout
+//@   ensures[C03] wn[w.Writer] <= old(wn[w.Writer]) + 4 @length
+//@ func Writer.SendDeleteFileError results(err)
+//@   tags C03,C05,C04
+//@   requires w != nil && w.Writer != nil
+//@   modifies wn[w.Writer], wdata[w.Writer], iofaults
+//@   ensures outKept(w.Writer) && iofaults >= old(iofaults) && (iofaults == old(iofaults) ==> err == nil)
+//@   ensures[C03] err == nil ==> wroteI32(w.Writer, -1) @layout
+//@   ensures[C03] wn[w.Writer] <= old(wn[w.Writer]) + 4 @length
+//@ func Writer.SendMkdirResult results(err)
+//@   tags C03,C05,C04
+//@   requires w != nil && w.Writer != nil
+//@   modifies wn[w.Writer], wdata[w.Writer], iofaults
+//@   ensures outKept(w.Writer) && iofaults >= old(iofaults) && (iofaults == old(iofaults) ==> err == nil)
+//@   ensures[C03] err == nil ==> wroteI32(w.Writer, 0) @layout
+//@   ensures[C03] wn[w.Writer] <= old(wn[w.Writer]) + 4 @length
+//@ func Writer.SendMkdirError results(err)
+//@   tags C03,C05,C04
+//@   requires w != nil && w.Writer != nil
+//@   modifies wn[w.Writer], wdata[w.Writer], iofaults
+//@   ensures outKept(w.Writer) && iofaults >= old(iofaults) && (iofaults == old(iofaults) ==> err == nil)
+//@   ensures[C03] err == nil ==> wroteI32(w.Writer, -1) @layout
+//@   ensures[C03] wn[w.Writer] <= old(wn[w.Writer]) + 4 @length
+//@ func Writer.SendRmdirResult results(err)
+//@   tags C03,C05,C04
+//@   requires w != nil && w.Writer != nil
+//@   modifies wn[w.Writer], wdata[w.Writer], iofaults
+//@   ensures outKept(w.Writer) && iofaults >= old(iofaults) && (iofaults == old(iofaults) ==> err == nil)
+//@   ensures[C03] err == nil ==> wroteI32(w.Writer, 0) @layout
+//@   ensures[C03] wn[w.Writer] <= old(wn[w.Writer]) + 4 @length
+//@ func Writer.SendRmdirError results(err)
+//@   tags C03,C05,C04
+//@   requires w != nil && w.Writer != nil
+//@   modifies wn[w.Writer], wdata[w.Writer], iofaults
+//@   ensures outKept(w.Writer) && iofaults >= old(iofaults) && (iofaults == old(iofaults) ==> err == nil)
+//@   ensures[C03] err == nil ==> wroteI32(w.Writer, -1) @layout
+//@   ensures[C03] wn[w.Writer] <= old(wn[w.Writer]) + 4 @length
+//@ func Writer.SendReadFileResultLen results(err)
+//@   tags C03,C02,C04
+//@   requires w != nil && w.Writer != nil
+//@   modifies wn[w.Writer], wdata[w.Writer], iofaults
+//@   ensures outKept(w.Writer) && iofaults >= old(iofaults) && (iofaults == old(iofaults) ==> err == nil)
+//@   ensures[C03,C02] err == nil ==> wroteI32(w.Writer, dataLen) @layout
+//@   ensures[C03] wn[w.Writer] <= old(wn[w.Writer]) + 4 @length
+
+// ---- 8-byte and structured results ---------------------------------------------------------------
+
+//@ func Writer.SendGetDirectorySizeResult results(err)
+//@   tags C03,C06,C04
+//@   requires w != nil && w.Writer != nil
+//@   modifies wn[w.Writer], wdata[w.Writer], iofaults
+//@   ensures outKept(w.Writer) && iofaults >= old(iofaults) && (iofaults == old(iofaults) ==> err == nil)
+//@   ensures[C03,C06] err == nil ==> wroteI64(w.Writer, size) @layout
+//@   ensures[C03] wn[w.Writer] <= old(wn[w.Writer]) + 8 @length
+//@ func Writer.SendGetDirectorySizeError results(err)
+//@   tags C03,C06,C04
+//@   requires w != nil && w.Writer != nil
+//@   modifies wn[w.Writer], wdata[w.Writer], iofaults
+//@   ensures outKept(w.Writer) && iofaults >= old(iofaults) && (iofaults == old(iofaults) ==> err == nil)
+//@   ensures[C03,C06] err == nil ==> wroteI64(w.Writer, -1) @layout
+//@   ensures[C03] wn[w.Writer] <= old(wn[w.Writer]) + 8 @length
+
+//@ func Writer.SendOpenFileResult results(err)
+//@   tags C03,C02,C04
+//@   requires w != nil && w.Writer != nil && info != nil
+//@   wrapok uint64(info.ModTime().UTC().Unix())
+//@   modifies wn[w.Writer], wdata[w.Writer], iofaults
+//@   ensures outKept(w.Writer) && iofaults >= old(iofaults) && (iofaults == old(iofaults) ==> err == nil)
+//@   ensures[C03,C02] err == nil ==> wn[w.Writer] == old(wn[w.Writer]) + 16 && sbe64(wdata[w.Writer], old(wn[w.Writer])) == fisize[info] && be64(wdata[w.Writer], old(wn[w.Writer]) + 8) == u64(fimtime[info]) @layout
+//@   ensures[C03] wn[w.Writer] <= old(wn[w.Writer]) + 16 @length
+//@ func Writer.SendOpenFileForCLOSEFILE results(err)
+//@   tags C03,C04
+//@   requires w != nil && w.Writer != nil
+//@   modifies wn[w.Writer], wdata[w.Writer], iofaults
+//@   ensures outKept(w.Writer) && iofaults >= old(iofaults) && (iofaults == old(iofaults) ==> err == nil)
+//@   ensures[C03] err == nil ==> wn[w.Writer] == old(wn[w.Writer]) + 16 && sbe64(wdata[w.Writer], old(wn[w.Writer])) == 0 && be64(wdata[w.Writer], old(wn[w.Writer]) + 8) == 0 @layout
+//@   ensures[C03] wn[w.Writer] <= old(wn[w.Writer]) + 16 @length
+//@ func Writer.SendOpenFileError results(err)
+//@   tags C03,C04
+//@   requires w != nil && w.Writer != nil
+//@   modifies wn[w.Writer], wdata[w.Writer], iofaults
+//@   ensures outKept(w.Writer) && iofaults >= old(iofaults) && (iofaults == old(iofaults) ==> err == nil)
+//@   ensures[C03] err == nil ==> wn[w.Writer] == old(wn[w.Writer]) + 16 && sbe64(wdata[w.Writer], old(wn[w.Writer])) == -1 && be64(wdata[w.Writer], old(wn[w.Writer]) + 8) == 0 @layout
+//@   ensures[C03] wn[w.Writer] <= old(wn[w.Writer]) + 16 @length
+
+//@ func AccessTimeFileInfo.AccessTime results(t)
+//@   requires recv != nil
+//@   ensures unixOf(t) == fiatime[recv]
+//@ func AccessChangeTimeFileInfo.ChangeTime results(t)
+//@   requires recv != nil
+//@   ensures unixOf(t) == fictime[recv]
+//@ func AccessChangeTimeFileInfo.AccessTime results(t)
+//@   requires recv != nil
+//@   ensures unixOf(t) == fiatime[recv]
+
+//@ func fileInfoTimes
+//@   tags C06,C04
+//@   requires info != nil
+//@   wrapok uint64(info.ModTime().UTC().Unix())
+//@   wrapok uint64(accessTime.AccessTime().UTC().Unix())
+//@   wrapok uint64(changeTime.ChangeTime().UTC().Unix())
+//@   ensures[C06] mtime == u64(fimtime[info]) @mtime
+//@   ensures[C06] atime == (implements(info, "proto.AccessTimeFileInfo") ? u64(fiatime[info]) : mtime) @atime
+//@   ensures[C06] ctime == (implements(info, "proto.AccessChangeTimeFileInfo") ? u64(fictime[info]) : mtime) @ctime
+
+//@ func Writer.SendStatFileResult results(err)
+//@   tags C03,C06,C04
+//@   requires w != nil && w.Writer != nil && entry != nil
+//@   modifies wn[w.Writer], wdata[w.Writer], iofaults
+//@   let u = w.Writer
+//@   let o = wn[w.Writer]
+//@   ensures outKept(w.Writer) && iofaults >= old(iofaults) && (iofaults == old(iofaults) ==> err == nil)
+//@   ensures[C03,C06] err == nil ==> wn[u] == o + 33 && sbe64(wdata[u], o) == (fisdir[entry] ? 0 : fisize[entry]) && be64(wdata[u], o + 8) == u64(fimtime[entry]) && wdata[u][o + 32] == (fisdir[entry] ? 1 : 0) @layout
+//@   ensures[C06] err == nil ==> be64(wdata[u], o + 16) == (implements(entry, "proto.AccessChangeTimeFileInfo") ? u64(fictime[entry]) : u64(fimtime[entry])) && be64(wdata[u], o + 24) == (implements(entry, "proto.AccessTimeFileInfo") ? u64(fiatime[entry]) : u64(fimtime[entry])) @times-order
+//@   ensures[C03] wn[u] <= o + 33 @length
+//@ func Writer.SendStatFileError results(err)
+//@   tags C03,C06,C04
+//@   requires w != nil && w.Writer != nil
+//@   modifies wn[w.Writer], wdata[w.Writer], iofaults
+//@   ensures outKept(w.Writer) && iofaults >= old(iofaults) && (iofaults == old(iofaults) ==> err == nil)
+//@   ensures[C03,C06] err == nil ==> wn[w.Writer] == old(wn[w.Writer]) + 33 && sbe64(wdata[w.Writer], old(wn[w.Writer])) == -1 @layout
+//@   ensures[C03] wn[w.Writer] <= old(wn[w.Writer]) + 33 @length
+
+// ---- directory entries ----------------------------------------------------------------------------
+
+//@ func Writer.SendReadDirEntryResult results(err)
+//@   tags C03,C06,C04
+//@   any k int
+//@   requires w != nil && w.Writer != nil
+//@   modifies wn[w.Writer], wdata[w.Writer], iofaults
+//@   let u = w.Writer
+//@   let o = wn[w.Writer]
+//@   ensures outKept(w.Writer) && iofaults >= old(iofaults) && (iofaults == old(iofaults) ==> err == nil)
+//@   ensures[C03,C06] err == nil && entry == nil ==> wn[u] == o + 11 && sbe64(wdata[u], o) == -1 && be16(wdata[u], o + 8) == 0 && wdata[u][o + 10] == 0 @end-marker
+//@   ensures[C03,C06] err == nil && entry != nil ==> wn[u] == o + 11 + len(finame[entry]) && sbe64(wdata[u], o) == (fisdir[entry] ? 0 : fisize[entry]) && be16(wdata[u], o + 8) == len(finame[entry]) && wdata[u][o + 10] == (fisdir[entry] ? 1 : 0) @entry-header
+//@   ensures[C03,C06] err == nil && entry != nil && 0 <= k && k < len(finame[entry]) ==> wdata[u][o + 11 + k] == finame[entry][k] @entry-name
+//@   ensures[C03] entry == nil ==> wn[u] <= o + 11 @length-end
+//@   ensures[C03] entry != nil ==> wn[u] <= o + 11 + len(finame[entry]) @length-entry
+
+//@ func Writer.SendReadDirEntryV2Result results(err)
+//@   tags C03,C06,C04
+//@   any k int
+//@   requires w != nil && w.Writer != nil
+//@   modifies wn[w.Writer], wdata[w.Writer], iofaults
+//@   let u = w.Writer
+//@   let o = wn[w.Writer]
+//@   ensures outKept(w.Writer) && iofaults >= old(iofaults) && (iofaults == old(iofaults) ==> err == nil)
+//@   ensures[C03,C06] err == nil && entry == nil ==> wn[u] == o + 35 && sbe64(wdata[u], o) == -1 && be16(wdata[u], o + 32) == 0 && wdata[u][o + 34] == 0 @end-marker
+//@   ensures[C03,C06] err == nil && entry != nil ==> wn[u] == o + 35 + len(finame[entry]) && sbe64(wdata[u], o) == (fisdir[entry] ? 0 : fisize[entry]) && be64(wdata[u], o + 8) == u64(fimtime[entry]) && be16(wdata[u], o + 32) == len(finame[entry]) && wdata[u][o + 34] == (fisdir[entry] ? 1 : 0) @entry-header
+//@   ensures[C06] err == nil && entry != nil ==> be64(wdata[u], o + 16) == (implements(entry, "proto.AccessChangeTimeFileInfo") ? u64(fictime[entry]) : u64(fimtime[entry])) && be64(wdata[u], o + 24) == (implements(entry, "proto.AccessTimeFileInfo") ? u64(fiatime[entry]) : u64(fimtime[entry])) @times-order
+//@   ensures[C03,C06] err == nil && entry != nil && 0 <= k && k < len(finame[entry]) ==> wdata[u][o + 35 + k] == finame[entry][k] @entry-name
+//@   ensures[C03] entry == nil ==> wn[u] <= o + 35 @length-end
+//@   ensures[C03] entry != nil ==> wn[u] <= o + 35 + len(finame[entry]) @length-entry
+
+//@ func Writer.SendReadDirResult results(err)
+//@   tags C03,C06,C04
+//@   any e int
+//@   any q int
+//@   requires w != nil && w.Writer != nil
+//@   requires forall y {at(entries, y)} :: base(entries) <= y && y < end(entries) ==> at(entries, y) != nil
+//@   wrapok uint64(entry.ModTime().UTC().Unix())
+//@   modifies wn[w.Writer], wdata[w.Writer], iofaults
+//@   let u = w.Writer
+//@   let o = wn[w.Writer]
+//@   ensures outKept(w.Writer) && iofaults >= old(iofaults) && (iofaults == old(iofaults) ==> err == nil)
+//@   ensures[C03,C06] err == nil ==> wn[u] == o + 8 + 529 * len(entries) && sbe64(wdata[u], o) == len(entries) @count
+//@   ensures[C03,C06] err == nil && 0 <= e && e < len(entries) ==> sbe64(wdata[u], o + 8 + 529 * e) == (fisdir[entries[e]] ? 0 : fisize[entries[e]]) && be64(wdata[u], o + 8 + 529 * e + 8) == u64(fimtime[entries[e]]) && wdata[u][o + 8 + 529 * e + 16] == (fisdir[entries[e]] ? 1 : 0) @entry-fields
+//@   ensures[C06] err == nil && 0 <= e && e < len(entries) && 0 <= q && q < 512 ==> wdata[u][o + 8 + 529 * e + 17 + q] == (q < len(finame[entries[e]]) ? finame[entries[e]][q] : 0) @entry-name
+//@   ensures[C03] wn[u] <= o + 8 + 529 * len(entries) @length
+//@   loop 1 invariant wn[u] == o + 8 + 529 * $idx && iofaults >= old(iofaults) && sbe64(wdata[u], o) == len(entries) @progress
+//@   loop 1 invariant forall k {wdata[u][k]} :: k < o ==> wdata[u][k] == old(wdata[u][k]) @prefix-kept
+//@   loop 1 invariant 0 <= e && e < $idx ==> sbe64(wdata[u], o + 8 + 529 * e) == (fisdir[entries[e]] ? 0 : fisize[entries[e]]) && be64(wdata[u], o + 8 + 529 * e + 8) == u64(fimtime[entries[e]]) && wdata[u][o + 8 + 529 * e + 16] == (fisdir[entries[e]] ? 1 : 0) @entry-fields
+//@   loop 1 invariant 0 <= e && e < $idx && 0 <= q && q < 512 ==> wdata[u][o + 8 + 529 * e + 17 + q] == (q < len(finame[entries[e]]) ? finame[entries[e]][q] : 0) @entry-name
+
+// ---- requests ---------------------------------------------------------------------------------------
+//
+// c = r.Reader is the connection; a command is 16 bytes: opcode (2, big endian) and 14 bytes of
+// command-specific data which the Read* methods decode.
+
+//@ pred wfReader(r *Reader) := r != nil && r.Reader != nil && limbase[r.Reader] == 0
+
+//@ func Reader.ReadCommand results(op, err)
+//@   tags C03,C04,C16
+//@   any i int
+//@   requires wfReader(r)
+//@   modifies r.cmd.OpCode, elems(r.cmd.Data), fpos[r.Reader], iofaults
+//@   let c = r.Reader
+//@   let o = fpos[r.Reader]
+//@   ensures iofaults >= old(iofaults)
+//@   ensures[C03] err == nil ==> fpos[c] == o + 16 && op == be16(fcontent[c], o) && r.cmd.OpCode == op @sixteen-bytes
+//@   ensures[C03] err == nil && 0 <= i && i < 14 ==> r.cmd.Data[i] == fcontent[c][o + 2 + i] @data
+//@   ensures[C03] fpos[c] >= o && fpos[c] <= o + 16 @at-most-sixteen
+
+//@ func Reader.readCommandTail
+//@   inline
+
+//@ func Reader.readStringN results(s, err)
+//@   tags C03,C04
+//@   any i int
+//@   requires wfReader(r)
+//@   modifies fpos[r.Reader], iofaults
+//@   let c = r.Reader
+//@   let o = fpos[r.Reader]
+//@   ensures iofaults >= old(iofaults)
+//@   ensures[C03] err == nil ==> fpos[c] == o + size && len(s) == size @consumed
+//@   ensures[C03] err == nil && 0 <= i && i < size ==> s[i] == fcontent[c][o + i] @bytes
+//@   ensures[C03] fpos[c] >= o && fpos[c] <= o + size @at-most
+//@   ensures err != nil ==> len(s) == 0
+
+//@ spec gbe16(d int, p int) int = d[p] * 256 + d[p + 1]
+//@ spec gbe32(d int, p int) int = d[p] * 16777216 + d[p + 1] * 65536 + d[p + 2] * 256 + d[p + 3]
+//@ spec gbe64(d int, p int) int = gbe32(d, p) * 4294967296 + gbe32(d, p + 4)
+
+// path-carrying requests: the announced length is the big-endian word in Data[0:2]
+//@ func Reader.ReadOpenDir results(p, err)
+//@   tags C03,C04,C01
+//@   any i int
+//@   requires wfReader(r)
+//@   modifies fpos[r.Reader], iofaults
+//@   let c = r.Reader
+//@   let o = fpos[r.Reader]
+//@   let L = gbe16(r.cmd.Data, 0)
+//@   ensures iofaults >= old(iofaults) && fpos[c] >= o && fpos[c] <= o + L @at-most
+//@   ensures[C03] err == nil ==> fpos[c] == o + L && len(p) == L @consumed
+//@   ensures[C03] err == nil && 0 <= i && i < L ==> p[i] == fcontent[c][o + i] @bytes
+//@ func Reader.ReadStatFile results(p, err)
+//@   tags C03,C04,C01
+//@   any i int
+//@   requires wfReader(r)
+//@   modifies fpos[r.Reader], iofaults
+//@   let c = r.Reader
+//@   let o = fpos[r.Reader]
+//@   let L = gbe16(r.cmd.Data, 0)
+//@   ensures iofaults >= old(iofaults) && fpos[c] >= o && fpos[c] <= o + L @at-most
+//@   ensures[C03] err == nil ==> fpos[c] == o + L && len(p) == L @consumed
+//@   ensures[C03] err == nil && 0 <= i && i < L ==> p[i] == fcontent[c][o + i] @bytes
+//@ func Reader.ReadOpenFile results(p, err)
+//@   tags C03,C04,C01
+//@   any i int
+//@   requires wfReader(r)
+//@   modifies fpos[r.Reader], iofaults
+//@   let c = r.Reader
+//@   let o = fpos[r.Reader]
+//@   let L = gbe16(r.cmd.Data, 0)
+//@   ensures iofaults >= old(iofaults) && fpos[c] >= o && fpos[c] <= o + L @at-most
+//@   ensures[C03] err == nil ==> fpos[c] == o + L && len(p) == L @consumed
+//@   ensures[C03] err == nil && 0 <= i && i < L ==> p[i] == fcontent[c][o + i] @bytes
+//@ func Reader.ReadCreateFile results(p, err)
+//@   tags C03,C04,C01
+//@   any i int
+//@   requires wfReader(r)
+//@   modifies fpos[r.Reader], iofaults
+//@   let c = r.Reader
+//@   let o = fpos[r.Reader]
+//@   let L = gbe16(r.cmd.Data, 0)
+//@   ensures iofaults >= old(iofaults) && fpos[c] >= o && fpos[c] <= o + L @at-most
+//@   ensures[C03] err == nil ==> fpos[c] == o + L && len(p) == L @consumed
+//@   ensures[C03] err == nil && 0 <= i && i < L ==> p[i] == fcontent[c][o + i] @bytes
+//@ func Reader.ReadDeleteFile results(p, err)
+//@   tags C03,C04,C01
+//@   any i int
+//@   requires wfReader(r)
+//@   modifies fpos[r.Reader], iofaults
+//@   let c = r.Reader
+//@   let o = fpos[r.Reader]
+//@   let L = gbe16(r.cmd.Data, 0)
+//@   ensures iofaults >= old(iofaults) && fpos[c] >= o && fpos[c] <= o + L @at-most
+//@   ensures[C03] err == nil ==> fpos[c] == o + L && len(p) == L @consumed
+//@   ensures[C03] err == nil && 0 <= i && i < L ==> p[i] == fcontent[c][o + i] @bytes
+//@ func Reader.ReadMkdir results(p, err)
+//@   tags C03,C04,C01
+//@   any i int
+//@   requires wfReader(r)
+//@   modifies fpos[r.Reader], iofaults
+//@   let c = r.Reader
+//@   let o = fpos[r.Reader]
+//@   let L = gbe16(r.cmd.Data, 0)
+//@   ensures iofaults >= old(iofaults) && fpos[c] >= o && fpos[c] <= o + L @at-most
+//@   ensures[C03] err == nil ==> fpos[c] == o + L && len(p) == L @consumed
+//@   ensures[C03] err == nil && 0 <= i && i < L ==> p[i] == fcontent[c][o + i] @bytes
+//@ func Reader.ReadRmdir results(p, err)
+//@   tags C03,C04,C01
+//@   any i int
+//@   requires wfReader(r)
+//@   modifies fpos[r.Reader], iofaults
+//@   let c = r.Reader
+//@   let o = fpos[r.Reader]
+//@   let L = gbe16(r.cmd.Data, 0)
+//@   ensures iofaults >= old(iofaults) && fpos[c] >= o && fpos[c] <= o + L @at-most
+//@   ensures[C03] err == nil ==> fpos[c] == o + L && len(p) == L @consumed
+//@   ensures[C03] err == nil && 0 <= i && i < L ==> p[i] == fcontent[c][o + i] @bytes
+//@ func Reader.ReadGetDirSize results(p, err)
+//@   tags C03,C04,C01
+//@   any i int
+//@   requires wfReader(r)
+//@   modifies fpos[r.Reader], iofaults
+//@   let c = r.Reader
+//@   let o = fpos[r.Reader]
+//@   let L = gbe16(r.cmd.Data, 0)
+//@   ensures iofaults >= old(iofaults) && fpos[c] >= o && fpos[c] <= o + L @at-most
+//@   ensures[C03] err == nil ==> fpos[c] == o + L && len(p) == L @consumed
+//@   ensures[C03] err == nil && 0 <= i && i < L ==> p[i] == fcontent[c][o + i] @bytes
+
+// fixed-size requests: nothing beyond the 16-byte command is consumed
+//@ func Reader.ReadReadFile
+//@   tags C03,C02,C04
+//@   requires wfReader(r)
+//@   ensures[C03,C02] err == nil && bytesToRead == gbe32(r.cmd.Data, 2) && offset == gbe64(r.cmd.Data, 6) @fields
+//@   ensures[C03] fpos == old(fpos) @nothing-consumed
+//@ func Reader.ReadReadFileCritical
+//@   tags C03,C02,C04
+//@   requires wfReader(r)
+//@   ensures[C03,C02] err == nil && bytesToRead == gbe32(r.cmd.Data, 2) && offset == gbe64(r.cmd.Data, 6) @fields
+//@   ensures[C03] fpos == old(fpos) @nothing-consumed
+//@ func Reader.ReadReadCD2048Critical results(first, second, err)
+//@   tags C03,C17,C04
+//@   requires wfReader(r)
+//@   ensures[C17,C03] err == nil && first == gbe32(r.cmd.Data, 2) && second == gbe32(r.cmd.Data, 6) @start-then-count
+//@   ensures[C03] fpos == old(fpos) @nothing-consumed
+//@ func Reader.ReadWriteFile results(data, err)
+//@   tags C03,C05,C04
+//@   requires wfReader(r)
+//@   modifies fpos, limbase
+//@   let c = r.Reader
+//@   let n = gbe32(r.cmd.Data, 2)
+//@   ensures[C03] err == nil && data != nil && fresh(data) && limbase[data] == c && fpos[data] == 0 && fpos[c] == old(fpos[c]) @payload-reader
+//@   ensures[C03,C05] fsize[data] == (n <= 0 ? 0 : min(n, max(fsize[c] - old(fpos[c]), 0))) && (forall k {fcontent[data][k]} :: fcontent[data][k] == fcontent[c][old(fpos[c]) + k]) @payload-window
+//@   ensures forall g {fpos[g]} :: old(allocated(g)) ==> fpos[g] == old(fpos[g])
+//@   ensures forall g {limbase[g]} :: old(allocated(g)) ==> limbase[g] == old(limbase[g])
